@@ -480,6 +480,11 @@ func c03D03bPool(ctx *Ctx, p c03Pool) {
 					What:  "two values of one set-free type have the same set hash text although they differ in structure or in a string / bool / null leaf — contradicts C03.hash_text_injective_setfree",
 					Input: encVal(x) + " " + encVal(y), GoLit: c03Lits(x, y), Outcome: "hash text " + encStr(hb[i])})
 			}
+			if setFree && strict && !tied && hb[i] != "\x00PANIC" && hb[j] != "\x00PANIC" {
+				ctx.Fail(Failure{Site: "hash-text-injective", Sig: "same-shape-different-hash-text",
+					What:  "two values of one set-free type that are SameShape (equal strings, bools, structure; number leaves with equal 10-digit texts) have different set hash texts — contradicts C03.hash_text_eq_iff_sameShape",
+					Input: encVal(x) + " " + encVal(y), GoLit: c03Lits(x, y), Outcome: encStr(hb[i]) + " vs " + encStr(hb[j])})
+			}
 			if tied && c03TieExplained(x, y) != strict {
 				ctx.Fail(Failure{Site: "d03b-classification", Sig: "tie-classification-disagrees-with-sameShape",
 					What:  "on a hash-tied pair the harness classification c03TieExplained differs from the strict SameShape that the Lean predicate Value.sameShape computes (harness bug or set iteration artefact)",
